@@ -88,6 +88,26 @@ def sample_word(rng, p, budget=3):
     return out
 
 
+# element types for typed content models: XSD type (or named union) and canonical sample values
+ELEM_TYPES = {
+    "string": ("xs:string", ["v", "x y", "1"]),
+    "int": ("xs:int", ["7", "-3", "0"]),
+    "boolean": ("xs:boolean", ["true", "false"]),
+    "date": ("xs:date", ["2020-01-01", "1999-12-31Z"]),
+    "decimal": ("xs:decimal", ["1.5", "-2"]),
+    "token": ("xs:token", ["tok"]),
+    "long": ("xs:long", ["9999999999"]),
+    "u_int_string": ("u_int_string", ["5", "word"]),
+    "u_date_int": ("u_date_int", ["2020-02-02", "12"]),
+}
+UNIONS = {"u_int_string": "xs:int xs:string", "u_date_int": "xs:date xs:int"}
+
+
+def assign_types(rng, p, types=None):
+    """name -> type key (one type per element name: Element Declarations Consistent)"""
+    return {n: rng.choice(types or list(ELEM_TYPES)) for n in set(particle_names(p))}
+
+
 def occ_attrs(mn, mx):
     s = ""
     if mn != 1:
@@ -97,12 +117,20 @@ def occ_attrs(mn, mx):
     return s
 
 
-def particle_xsd(p, ns="urn:t", qualified=True):
+def particle_xsd(p, ns="urn:t", qualified=True, types=None):
+    """XSD text; `types`: name -> key of ELEM_TYPES (default: every element xs:string)"""
+    types = types or {}
+
+    def tname(n):
+        key = types.get(n, "string")
+        t = ELEM_TYPES[key][0]
+        return t if t.startswith("xs:") else t  # named union types live in the target namespace
+
     def go(q, ind):
         pad = "  " * ind
         if "elem" in q:
             n, mn, mx = q["elem"]
-            return f'{pad}<xs:element name="{n}" type="xs:string"{occ_attrs(mn, mx)}/>\n'
+            return f'{pad}<xs:element name="{n}" type="{tname(n)}"{occ_attrs(mn, mx)}/>\n'
         kind = "sequence" if "seq" in q else "choice"
         mn, mx, kids = q.get("seq") or q.get("choice")
         return f"{pad}<xs:{kind}{occ_attrs(mn, mx)}>\n" + "".join(go(k, ind + 1) for k in kids) + f"{pad}</xs:{kind}>\n"
@@ -110,17 +138,35 @@ def particle_xsd(p, ns="urn:t", qualified=True):
     body = go(p, 3)
     tns = f' targetNamespace="{ns}" xmlns="{ns}"' if ns else ""
     form = ' elementFormDefault="qualified"' if qualified and ns else ""
+    unions = "".join(
+        f' <xs:simpleType name="{u}"><xs:union memberTypes="{members}"/></xs:simpleType>\n'
+        for u, members in UNIONS.items()
+        if u in {types.get(n) for n in types}
+    )
     return (
-        f'<?xml version="1.0"?>\n<xs:schema xmlns:xs="http://www.w3.org/2001/XMLSchema"{tns}{form}>\n'
+        f'<?xml version="1.0"?>\n<xs:schema xmlns:xs="http://www.w3.org/2001/XMLSchema"{tns}{form}>\n{unions}'
         f' <xs:element name="r">\n  <xs:complexType>\n{body}  </xs:complexType>\n </xs:element>\n</xs:schema>\n'
     )
 
 
-def word_doc(word, ns="urn:t", qualified=True):
+def word_values(word, types=None):
+    """the text of each child: a canonical value of the element's type (default v<i>)"""
+    out = []
+    for i, n in enumerate(word):
+        if types and n in types:
+            vals = ELEM_TYPES[types[n]][1]
+            out.append(vals[i % len(vals)])
+        else:
+            out.append(f"v{i}")
+    return out
+
+
+def word_doc(word, ns="urn:t", qualified=True, types=None):
+    vals = word_values(word, types)
     if ns:
-        kids = "".join(f"<t:{n}>v{i}</t:{n}>" if qualified else f"<{n}>v{i}</{n}>" for i, n in enumerate(word))
+        kids = "".join(f"<t:{n}>{v}</t:{n}>" if qualified else f"<{n}>{v}</{n}>" for n, v in zip(word, vals))
         return f'<t:r xmlns:t="{ns}">{kids}</t:r>'
-    return "<r>" + "".join(f"<{n}>v{i}</{n}>" for i, n in enumerate(word)) + "</r>"
+    return "<r>" + "".join(f"<{n}>{v}</{n}>" for n, v in zip(word, vals)) + "</r>"
 
 
 # --------------------------------------------------------------------------
